@@ -630,6 +630,7 @@ func main() {
 	plainHistories(r)
 	plainChildHistories(r)
 	dirtyDestination(r)
+	observerHistories(r)
 	racePass(r)
 	runtime.GC()
 	r.States(nStates)
@@ -646,7 +647,7 @@ func main() {
 		return n
 	}())
 	r.Sample(map[string]any{"history": []string{"s=len127", "Size()", "next={}", "Marshal()"}, "note": "every observer result is compared with the reference marshal of a FRESH tree built from the model contents"})
-	r.Rule(fmt.Sprintf("Mode Q: for the recursive corpus message Child {int32 a, string s, Child next, repeated Child kids} of p2 and p3 on every runtime: ALL operation sequences of length %d over the operation alphabet listed under operation_alphabet (quick: an 18-operation sub-alphabet; thorough: all 27) (set/clear scalar, grow/shrink string across the 127/128 length boundary, set/clear nested message, mutate the NESTED message only, append/truncate list, mutate a list element only, Size, Marshal, MarshalTo, csproto.Size/Marshal, the owning runtime's Size/Marshal, Unmarshal of two inputs, Reset, Clone-and-continue), replayed on a fresh real message; every observer must return exactly the reference marshal of a fresh tree built from the model contents and nothing may panic. states = distinct (contents, all size-cache words of the tree) reached, transitions = operations executed. Plain messages (no generated methods; the runtime keeps size caches in them): all histories of length <= 4 over {csproto.Size, csproto.Marshal, runtime Size, grow, shrink} on two plain types, and on a well-known-type child (Timestamp, Struct) that is then placed - singular, oneof, list, map value, required, one generated level down - into a NEW generated parent whose csproto.Marshal / Marshal / Size+MarshalTo must equal the bytes of a deep copy. Dirty destinations: for ten bool/zero-bearing corpus types and every single-field / all-fields tree the history Marshal ; MarshalTo(destination full of 0xFF) ; Size ; MarshalTo(destination holding an earlier output shifted by one byte) ; csproto.Marshal gives the bytes of a fresh copy at every step. A failing history is re-run with every size-cache word zeroed right before the failing call to attribute it to the size-cache mechanism. Mode S: 2-3 goroutines calling Size/Marshal/csproto.Marshal/runtime Size/Marshal on one shared nested message nobody mutates, caches cold / warm / written by the runtime; scheduling points at every atomic load/store of the generated code and at API boundaries; preemption bound 3 (thorough 5) for 2 threads, 2 (3) for 3 threads.", depth))
+	r.Rule(fmt.Sprintf("Mode Q: for the recursive corpus message Child {int32 a, string s, Child next, repeated Child kids} of p2 and p3 on every runtime: ALL operation sequences of length %d over the operation alphabet listed under operation_alphabet (quick: an 18-operation sub-alphabet; thorough: all 27) (set/clear scalar, grow/shrink string across the 127/128 length boundary, set/clear nested message, mutate the NESTED message only, append/truncate list, mutate a list element only, Size, Marshal, MarshalTo, csproto.Size/Marshal, the owning runtime's Size/Marshal, Unmarshal of two inputs, Reset, Clone-and-continue), replayed on a fresh real message; every observer must return exactly the reference marshal of a fresh tree built from the model contents and nothing may panic. states = distinct (contents, all size-cache words of the tree) reached, transitions = operations executed. Plain messages (no generated methods; the runtime keeps size caches in them): all histories of length <= 4 over {csproto.Size, csproto.Marshal, runtime Size, grow, shrink} on two plain types, and on a well-known-type child (Timestamp, Struct) that is then placed - singular, oneof, list, map value, required, one generated level down - into a NEW generated parent whose csproto.Marshal / Marshal / Size+MarshalTo must equal the bytes of a deep copy. Dirty destinations: for ten bool/zero-bearing corpus types and every single-field / all-fields tree the history Marshal ; MarshalTo(destination full of 0xFF) ; Size ; MarshalTo(destination holding an earlier output shifted by one byte) ; csproto.Marshal gives the bytes of a fresh copy at every step. Observer-only histories: every sequence of <= 3 calls over the seven observers, no mutation, on every extension-bearing corpus message (each extension alone at two values, all together) and on the special trees of p2/p3/p3opt/p2def messages: each answer equals the answer of a fresh copy. A failing history is re-run with every size-cache word zeroed right before the failing call to attribute it to the size-cache mechanism. Mode S: 2-3 goroutines calling Size/Marshal/csproto.Marshal/runtime Size/Marshal on one shared nested message nobody mutates, caches cold / warm / written by the runtime; scheduling points at every atomic load/store of the generated code and at API boundaries; preemption bound 3 (thorough 5) for 2 threads, 2 (3) for 3 threads.", depth))
 	r.Assume("runtime Size/Marshal are single atomic steps of the scheduler; finer interleavings inside the third-party runtimes and data races as such are outside a cooperative scheduler's reach")
 	r.Finish()
 }
